@@ -248,9 +248,11 @@ def build_harness(pid, name, src, flags, compiler="g++"):
     return exe, ""
 
 
-def run_bin(exe, cases, timeout=3000, args=()):
+def run_bin(exe, cases, timeout=3000, args=(), extra_env=None):
     inp = ("\n".join(cases) + "\n").encode()
     env = dict(os.environ)
+    if extra_env:
+        env.update(extra_env)
     env.setdefault("ASAN_OPTIONS", "detect_leaks=0:abort_on_error=1:handle_abort=0:print_summary=0:allocator_may_return_null=1")
     env.setdefault("UBSAN_OPTIONS", "halt_on_error=1:abort_on_error=1:print_stacktrace=0")
     rc, out, err = sh([str(exe)] + list(args), inp=inp, timeout=timeout, env=env)
@@ -315,6 +317,9 @@ def analyse(cases, impl_lines, model_lines, known, variant):
         op = cases[i].split(" ", 1)[0]
         if e != m:
             r["corr"].append(i)
+        # " # detail" (e.g. which header's check fired) is part of the correspondence only
+        e = e.split(" # ", 1)[0]
+        m = m.split(" # ", 1)[0]
         bad = (s != "na" and e != s) or (p != "na" and e != p)
         if bad:
             if e == m and op in known_ops:
@@ -425,12 +430,18 @@ def run_part(pid, tier="quick", seed=0, replay=None, report_pid=None):
         if rc != 0:
             broken_obl.append("model driver failed: " + err[-1500:])
     impl_by_variant = {}
+    model_by_variant = {}
     for h, exe in exes:
-        rc, il, err = run_bin(exe, cases, args=h.get("args", ()))
+        rc, il, err = run_bin(exe, cases, args=h.get("args", ()), extra_env=h.get("env"))
         if rc != 0 or len(il) != len(cases):
             broken_obl.append(f"harness {h['name']} run failed rc={rc} lines={len(il)}/{len(cases)}: {err[-800:]}")
         impl_by_variant[h["name"]] = il
-        results[h["name"]] = analyse(cases, il, model_lines, known, h["name"])
+        ml = model_lines
+        if h.get("env") and driver:
+            # a build-mode dependent model (e.g. checks that exist only under CONTRACT_CHECKS_SAFE)
+            _, ml, _ = run_bin(driver, cases, extra_env=h.get("env"))
+        model_by_variant[h["name"]] = ml
+        results[h["name"]] = analyse(cases, il, ml, known, h["name"])
 
     # ---- 4. decide
     nrep = 0
@@ -454,7 +465,8 @@ def run_part(pid, tier="quick", seed=0, replay=None, report_pid=None):
     def legs(i, vname):
         il = impl_by_variant[vname]
         e, s = split_legs(il[i]) if i < len(il) else ("missing", "na")
-        m, p = split_legs(model_lines[i]) if i < len(model_lines) else ("missing", "na")
+        ml = model_by_variant.get(vname, model_lines)
+        m, p = split_legs(ml[i]) if i < len(ml) else ("missing", "na")
         return {"case": cases[i], "variant": vname, "impl": e, "reference": s, "model": m, "spec": p}
 
     for vname, r in results.items():
@@ -482,7 +494,8 @@ def run_part(pid, tier="quick", seed=0, replay=None, report_pid=None):
             path = write_replay(pid, nrep, L)
             violations.append((f"VIOLATION property={rpid} replay={path}", True))
         # correspondence breaks with no failing input among them
-        corr_only = [i for i in r["corr"] if i not in set(r["prop"])]
+        prop_set = set(r["prop"])
+        corr_only = [i for i in r["corr"] if i not in prop_set]
         if corr_only and not r["prop"]:
             found = search_failing(prop, exes, known, seed, tier)
             i = sorted(corr_only, key=lambda i: (len(cases[i]), i))[0]
